@@ -112,20 +112,19 @@ pub(crate) fn convert(
         }
     }
 
-    orig_ts = orig_ts.pre_concat(new_ts);
-
     if linked_to_symbol {
-        // Make group for `use`.
+        // Make group for `use`. It keeps the `use` transform, so that `clip-path`, `mask` and `filter`
+        // of the `use` element are applied in its own coordinate system (like in the branch above).
         if let Some(mut g) =
             converter::convert_group(node, &use_state, false, cache, parent, &|cache, g| {
-                convert_children(child, orig_ts, &use_state, cache, false, g);
+                convert_children(child, new_ts, &use_state, cache, false, g);
             })
         {
             g.is_context_element = true;
-            g.transform = Transform::default();
             parent.children.push(Node::Group(Box::new(g)));
         }
     } else {
+        orig_ts = orig_ts.pre_concat(new_ts);
         let linked_to_svg = child.tag_name() == Some(EId::Svg);
         if linked_to_svg {
             // When a `use` element references a `svg` element,
